@@ -122,7 +122,9 @@ pub broadcast proof fn lemma_round_sign(x: int)
 {}
 pub broadcast proof fn lemma_round_zero()
     ensures #[trigger] round_half_away(0) == 0
-{}
+{
+    assert(10000000000000000000000000000int / 20000000000000000000000000000int == 0) by(compute);
+}
 pub broadcast proof fn lemma_round_whole(x: int)
     requires is_whole(x), x >= 0
     ensures #[trigger] round_half_away(x) == whole(x)
@@ -162,6 +164,14 @@ pub proof fn lemma_pmul_price_mono(p: int, q: int, n: int)
 {
     assert(p * n <= q * n) by(nonlinear_arith) requires p <= q, n >= 0;
 }
+pub broadcast proof fn lemma_gross_strict(p: int, q: int, n: int)
+    requires p < q, n >= 1, is_whole(pmul(p, n)), is_whole(pmul(q, n))
+    ensures #![trigger whole(pmul(p, n)), whole(pmul(q, n))] whole(pmul(p, n)) + 1 <= whole(pmul(q, n))
+{
+    assert(p * n < q * n) by(nonlinear_arith) requires p < q, n >= 1;
+    assert((p * n) / D() + 1 <= (q * n) / D()) by(nonlinear_arith)
+        requires p * n < q * n, (p * n) % D() == 0, (q * n) % D() == 0, D() == 10000000000000000000000000000;
+}
 pub proof fn lemma_whole_add(a: int, b: int)
     requires is_whole(a), is_whole(b)
     ensures is_whole(a + b), whole(a + b) == whole(a) + whole(b), is_whole(a - b), whole(a - b) == whole(a) - whole(b)
@@ -175,16 +185,27 @@ pub proof fn lemma_whole_mono(a: int, b: int)
 {
     assert(a / D() <= b / D()) by(nonlinear_arith) requires a <= b, D() == 10000000000000000000000000000;
 }
-pub proof fn lemma_whole_pos(a: int)
+pub broadcast proof fn lemma_pmul_pos(p: int, n: int)
+    requires p > 0, n > 0
+    ensures #[trigger] pmul(p, n) > 0
+{
+    assert(p * n > 0) by(nonlinear_arith) requires p > 0, n > 0;
+}
+pub broadcast proof fn lemma_whole_pos(a: int)
     requires is_whole(a), a > 0
-    ensures whole(a) >= 1
+    ensures #[trigger] whole(a) >= 1
 {
     assert(a / D() >= 1) by(nonlinear_arith) requires a % D() == 0, a > 0, D() == 10000000000000000000000000000;
+}
+pub broadcast proof fn lemma_dmul_comm(a: int, b: int)
+    ensures #[trigger] dmul(a, b) == dmul(b, a)
+{
+    assert(a * b == b * a) by(nonlinear_arith);
 }
 pub broadcast group dec_lemmas {
     lemma_dmul_of_int, lemma_dmul_of_int_left, lemma_dmul_whole, lemma_whole_of_int, lemma_of_int_whole, lemma_of_int_sign,
     lemma_whole_dsub, lemma_round_sign, lemma_round_zero, lemma_round_whole, lemma_pmul_zero, lemma_whole_zero,
-    lemma_pmul_sign, lemma_whole_sign, lemma_of_int_inj,
+    lemma_pmul_sign, lemma_whole_sign, lemma_of_int_inj, lemma_pmul_pos, lemma_whole_pos,
 }
 
 // ---- assumed facts about rust_decimal's division (A-DEC-DIV)
@@ -247,6 +268,31 @@ pub proof fn lemma_prorata_nonneg(fee: int, num: int, den: int)
     assert(r >= 0);
     assert(dmul(r, of_int(fee)) == pmul(r, fee));
     assert(pmul(r, fee) >= 0);
+}
+
+pub proof fn lemma_round_mono(x: int, y: int)
+    requires 0 <= x <= y
+    ensures round_half_away(x) <= round_half_away(y)
+{
+    assert((2 * x + D()) / (2 * D()) <= (2 * y + D()) / (2 * D())) by(nonlinear_arith)
+        requires 0 <= x <= y, D() == 10000000000000000000000000000;
+}
+pub proof fn lemma_prorata_mono(fee: int, n1: int, n2: int, den: int)
+    requires den > 0, 0 <= n1 <= n2 <= den, fee >= 0
+    ensures prorata(fee, n1, den) <= prorata(fee, n2, den)
+{
+    broadcast use dec_lemmas, axiom_ddiv;
+    lemma_of_int_inj(n1, n2); lemma_of_int_inj(n2, den); lemma_of_int_inj(0, n1);
+    assert(of_int(den) > 0);
+    assert(0 <= of_int(n1) <= of_int(n2) <= of_int(den));
+    axiom_ddiv_mono(of_int(n1), of_int(n2), of_int(den));
+    let r1 = ddiv(of_int(n1), of_int(den)); let r2 = ddiv(of_int(n2), of_int(den));
+    assert(0 <= r1 <= r2);
+    assert(dmul(r1, of_int(fee)) == pmul(r1, fee));
+    assert(dmul(r2, of_int(fee)) == pmul(r2, fee));
+    lemma_pmul_price_mono(r1, r2, fee);
+    assert(pmul(r1, fee) >= 0);
+    lemma_round_mono(pmul(r1, fee), pmul(r2, fee));
 }
 
 // ---- ledger
